@@ -18,7 +18,7 @@ RULE = (
 ASSUMPTIONS = ["the set of implemented identities is read from the repository's tables (as data); the 49 MSM numbers "
                "and the block 1070-1229 are pinned"]
 GATES = ["numbers_checked", "subtypes_checked", "stubs_checked", "df002_checked", "ismsm_true_checked",
-         "ismsm_false_checked"]
+         "ismsm_false_checked", "reader_frames_checked", "collider_pairs", "frame_as_payload"]
 
 
 def check(ctx, payload, expect_id, defined, full_body):
@@ -70,9 +70,82 @@ def check(ctx, payload, expect_id, defined, full_body):
     ctx.case(payload, len(payload) > (3 if num == 4076 else 2))
 
 
+def reader_case(ctx, payloads):
+    """The same identity rules for messages that come out of a stream reader (frames back to back)."""
+    import io
+
+    from pyrtcm import RTCMReader
+
+    defs, _ = refmodel.tables()
+    data = b"".join(refcrc.frame(p) for p in payloads)
+    params = {"reader": [p.hex() for p in payloads]}
+    try:
+        got = [(bytes(raw), m) for raw, m in RTCMReader(io.BytesIO(data), quitonerror=0)]
+    except Exception as e:
+        ctx.violation("reader-raised", f"{type(e).__name__}: {e}", params)
+        return
+    want = [p for p in payloads if common_identity(p) is not None and (common_identity(p) not in defs)]
+    stubs = [(raw, m) for raw, m in got if common_identity(raw[3:-3]) not in defs]
+    if [raw[3:-3] for raw, _ in stubs] != want:
+        ctx.violation("reader-stub-lost", f"reader returned {len(stubs)} of {len(want)} frames with undefined numbers",
+                      params)
+        return
+    for raw, m in got:
+        exp = common_identity(raw[3:-3])
+        if m.identity != exp:
+            ctx.violation("identity-wrong", f"reader: identity {m.identity!r} for a frame transmitting {exp!r} "
+                          f"(payload {raw[3:8].hex()}..)", params)
+            return
+        if exp not in defs and (m.payload != raw[3:-3] or m.serialize() != raw):
+            ctx.violation("stub-payload-lost", f"reader: stub of {exp} does not keep / re-serialise its frame", params)
+            return
+    ctx.hit("reader_frames_checked", len(got))
+    ctx.case(data, True)
+
+
+def common_identity(p):
+    from vf import common
+
+    return common.expected_identity(p)
+
+
+def collider_top(frame, rng):
+    """Valid frame with the same CRC trailer whose MESSAGE NUMBER differs (generator pattern xor-ed
+    into the first payload bytes)."""
+    nb = (len(frame) - 3) * 8
+    t = rng.randint(24, 35)  # MSB-first position of the pattern's top bit: inside the 12 number bits
+    shift = nb - t - 25
+    if shift < 0:
+        return None
+    v = int.from_bytes(frame[:-3], "big") ^ (refcrc.POLY << shift)
+    out = v.to_bytes(len(frame) - 3, "big") + frame[-3:]
+    return out if refcrc.wellformed(out) is None else None
+
+
 def run(ctx):
     rng = ctx.rng
     defs, _ = refmodel.tables()
+    # messages out of a reader: random stubs, CRC-colliding neighbours, frames used as payloads
+    for _ in range(ctx.n(800, 20000)):
+        pls = []
+        for _ in range(rng.randint(2, 6)):
+            p = streams.rand_unknown_payload(rng, rng.choice((2, 4, 9, 30)))
+            if len(p) >= 6 and rng.random() < 0.6:
+                c = collider_top(refcrc.frame(p), rng)
+                if c is not None and common_identity(c[3:-3]) not in defs and common_identity(c[3:-3]) is not None:
+                    pls += [p, c[3:-3]]
+                    ctx.hit("collider_pairs")
+                    continue
+            pls.append(p)
+        reader_case(ctx, pls)
+    # a complete valid frame used AS a payload (numbers 0xD30..0xD33): must stay an opaque stub
+    for _ in range(ctx.n(400, 8000)):
+        inner = streams.rand_defined_payload(rng) if rng.random() < 0.5 else streams.rand_unknown_payload(rng, rng.randint(2, 40))
+        p = refcrc.frame(inner)
+        if len(p) <= 1023:
+            check(ctx, p, str((p[0] << 4) | (p[1] >> 4)), False, False)
+            reader_case(ctx, [p, streams.rand_unknown_payload(rng, 5)])
+            ctx.hit("frame_as_payload")
     for num in range(4096):
         if not ctx.mine(num):
             continue
@@ -125,4 +198,7 @@ def finalize(tier, counters, notes):
 
 
 def replay(ctx, p):
+    if "reader" in p:
+        reader_case(ctx, [bytes.fromhex(x) for x in p["reader"]])
+        return
     check(ctx, bytes.fromhex(p["payload"]), p["expect"], p["defined"], True)
